@@ -9,7 +9,8 @@ prop=$(python3 -c "import json;print(json.load(open('$sd/meta.json'))['property'
 checks=("$@"); [ ${#checks[@]} -eq 0 ] && checks=("$prop")
 if [ -n "$(git -C /repo status --porcelain --untracked-files=no)" ]; then echo "seeded_eval: /repo is not clean" >&2; exit 2; fi
 git -C /repo apply "$sd/patch.diff" || { echo "seeded_eval: patch does not apply" >&2; exit 2; }
-trap 'git -C /repo checkout -- . ' EXIT
+# undo the change and rebuild the checks that were run, so that no binary built from the changed tree stays behind
+trap 'git -C /repo checkout -- . ; for c in "${checks[@]}"; do (cd /verif/mc && cargo build --release --offline -q -p "$(echo $c | tr A-Z a-z)" >/dev/null 2>&1); done' EXIT
 for c in "${checks[@]}"; do
   out=$(cd /verif && ./check "$c" --tier quick --no-evidence ${SEEDED_ARGS:-} 2>&1); rc=$?
   sites=$(echo "$out" | grep -E "^  site=" | sed -E 's/^  site=([^ ]+).*/\1/' | tr '\n' ' ')
